@@ -45,7 +45,10 @@ func (s *srcSet) resolve(v ssa.Value) ssa.Value {
 		}
 		a, ok := s.bind[p]
 		if !ok {
-			return v
+			if a = uniqueCallArg(s.deep, p); a == nil {
+				return v
+			}
+			s.bind[p] = a
 		}
 		v = a
 	}
@@ -79,6 +82,12 @@ func backward(v ssa.Value, s *srcSet, seen map[ssa.Value]bool) {
 	case *ssa.Parameter:
 		if s.bind != nil && !s.amb[x] {
 			if a, ok := s.bind[x]; ok {
+				backward(a, s, seen)
+				return
+			}
+			// a helper of the command called from one place: the parameter is that call's argument
+			if a := uniqueCallArg(s.deep, x); a != nil {
+				s.bind[x] = a
 				backward(a, s, seen)
 				return
 			}
@@ -230,6 +239,35 @@ func runC19(w *World) *Result {
 			}
 		}
 	}
+	// … or calls it through a function value: a parameter that receives the method value
+	// t.Transpile at the (only) place the helper is called from
+	for _, fn := range w.Funcs("main") {
+		for _, b := range fn.Blocks {
+			for _, ins := range b.Instrs {
+				c, ok := ins.(*ssa.Call)
+				if !ok || c.Call.IsInvoke() || c.Call.StaticCallee() != nil {
+					continue
+				}
+				p, ok := c.Call.Value.(*ssa.Parameter)
+				if !ok {
+					continue
+				}
+				av := uniqueCallArg(w, p)
+				for {
+					ct, ok := av.(*ssa.ChangeType)
+					if !ok {
+						break
+					}
+					av = ct.X
+				}
+				if mc, ok := av.(*ssa.MakeClosure); ok {
+					if bf, ok := mc.Fn.(*ssa.Function); ok && boundMethodOf(bf, "Transpile", w.Pkgs["transpiler"].Types) {
+						transpiles = append(transpiles, site{fn, c, "Transpile"})
+					}
+				}
+			}
+		}
+	}
 	r.Analysed["file_mutating_calls"] = len(muts)
 	r.Analysed["transpile_calls_in_main"] = len(transpiles)
 	if len(transpiles) == 0 {
@@ -237,6 +275,16 @@ func runC19(w *World) *Result {
 		return r
 	}
 	tr := transpiles[0]
+	// the path and the converter handed to Transpile (a call through a method value has no receiver argument)
+	trArgs := tr.call.Call.Args
+	if tr.call.Call.StaticCallee() != nil && len(trArgs) > 0 {
+		trArgs = trArgs[1:]
+	}
+	if len(trArgs) < 2 {
+		r.Bad("R-C19-write", "write:transpile-call", w.Pos(tr.call.Pos()), "the Transpile call does not pass a path and a converter")
+		return r
+	}
+	trPath, trConv := trArgs[0], trArgs[len(trArgs)-1]
 	for _, m := range muts {
 		key := "write:mutator:" + FuncName(m.fn) + ":" + m.name
 		if pkgOf(m.fn) != mainPkg {
@@ -301,16 +349,23 @@ func runC19(w *World) *Result {
 		extCalls := ps.calls["invoke:Extension"]
 		if len(extCalls) == 0 {
 			problems = append(problems, "target extension not taken from the converter")
-		} else if !sameRoot(ps.resolve(extCalls[0].Call.Value), tr.call.Call.Args[2]) && !sameRoot(ps.resolve(extCalls[0].Call.Value), tr.call.Call.Args[len(tr.call.Call.Args)-1]) {
+		} else if !sameRoot(ps.resolve(extCalls[0].Call.Value), ps.resolve(trConv)) {
 			problems = append(problems, "Extension() is asked of a different converter than the one that produced the text")
 		}
-		if len(bases) > 0 && len(exts) > 0 && !sameRoot(ps.resolve(bases[0].Call.Args[0]), ps.resolve(exts[0].Call.Args[0])) {
+		// Ext(p) and Ext(Base(p)) are the same text
+		extOfBase := false
+		if len(bases) > 0 && len(exts) > 0 {
+			if bc, ok := rootOf(ps.resolve(exts[0].Call.Args[0]), 0).(*ssa.Call); ok && calleeName(bc) == "path/filepath.Base" && sameRoot(ps.resolve(bc.Call.Args[0]), ps.resolve(bases[0].Call.Args[0])) {
+				extOfBase = true
+			}
+		}
+		if len(bases) > 0 && len(exts) > 0 && !extOfBase && !sameRoot(ps.resolve(bases[0].Call.Args[0]), ps.resolve(exts[0].Call.Args[0])) {
 			problems = append(problems, "the extension that is cut off is not the extension of the path whose base name is used")
 		}
 		if !ps.fields["out"] && !hasFieldLike(ps.fields, "out") {
 			problems = append(problems, "output directory option not used")
 		}
-		if len(bases) > 0 && !sameRoot(ps.resolve(bases[0].Call.Args[0]), tr.call.Call.Args[1]) {
+		if len(bases) > 0 && !sameRoot(ps.resolve(bases[0].Call.Args[0]), ps.resolve(trPath)) {
 			problems = append(problems, "the base name is not taken from the path that was transpiled")
 		}
 		// no slicing by a constant, trimming of other suffixes etc. beyond len arithmetic
@@ -334,6 +389,16 @@ func runC19(w *World) *Result {
 				// the function of the command that reads the options (no parameters: it reads the
 				// argument vector) is where the output directory comes from
 				optionReader := false
+				if name == "dyn" {
+					// the call that made the converter whose Extension() is asked (a constructor taken from the options)
+					all := true
+					for _, c := range ps.calls[name] {
+						if rootOf(ps.resolve(trConv), 0) != ssa.Value(c) {
+							all = false
+						}
+					}
+					optionReader = all
+				}
 				for _, c := range ps.calls[name] {
 					if callee := c.Call.StaticCallee(); callee != nil && pkgOf(callee) == mainPkg && len(callee.Params) == 0 && callee.Signature.Results().Len() == 1 {
 						optionReader = true
@@ -353,7 +418,7 @@ func runC19(w *World) *Result {
 		// the input is never overwritten: before the write a test "output is the input file"
 		// (os.SameFile on both files, or a comparison of the two paths) ends the command
 		notInput := false
-		for _, blk := range fnMain(w).Blocks {
+		for _, blk := range m.fn.Blocks {
 			cnd, neg := condOf(blk)
 			if cnd == nil || !(blk.Dominates(m.call.Block()) || reachableFromWithout(blk, nil, m.call.Block())) {
 				continue
@@ -392,7 +457,7 @@ func runC19(w *World) *Result {
 		}
 		// the files the program imports are inputs as well; the command can only protect them if the
 		// library tells it which files it read
-		if tr.call.Call.StaticCallee() != nil && tr.call.Call.StaticCallee().Signature.Results().Len() <= 2 {
+		if tr.call.Call.Signature().Results().Len() <= 2 {
 			r.Bad("R-C19-write", "write:not-input:imports", w.Pos(m.call.Pos()), "only the file named by -i is compared with the output path: a file the program imports (tsh -i main.tsh with  import u \"main.sh\"  and -o .) is replaced by the emitted script, exit 0 — the library does not report which files it read")
 		}
 		if notInput {
@@ -507,10 +572,10 @@ func runC19(w *World) *Result {
 	}
 	// os.Exit(0) / non-zero exits on the success path: any os.Exit call must sit in an error branch
 	// --- fresh converter
-	conv := tr.call.Call.Args[len(tr.call.Call.Args)-1]
+	conv := trConv
 	_ = iface
-	fs := newSrcSet()
-	backwardThroughFields(w, conv, fs, map[ssa.Value]bool{}, 0)
+	fs := newDeepSrcSet(w)
+	backwardThroughFields(w, fs.resolve(conv), fs, map[ssa.Value]bool{}, 0)
 	var gl []string
 	for g := range fs.globals {
 		if w.Pkgs["main"].Types.Scope().Lookup(g) != nil {
@@ -814,4 +879,63 @@ func fnMain(w *World) *ssa.Function {
 		}
 	}
 	return &ssa.Function{}
+}
+
+// uniqueCallArg: p is a parameter of a function of package main (no receiver, never used as
+// a value) that is called from exactly one place: the argument passed there.
+func uniqueCallArg(w *World, p *ssa.Parameter) ssa.Value {
+	if w == nil || p == nil || p.Parent() == nil {
+		return nil
+	}
+	fn := p.Parent()
+	if pkgOf(fn) != w.Pkgs["main"].Types || fn.Signature.Recv() != nil || fn.Parent() != nil {
+		return nil
+	}
+	idx := -1
+	for i, q := range fn.Params {
+		if q == p {
+			idx = i
+		}
+	}
+	var arg ssa.Value
+	n := 0
+	for _, caller := range w.Funcs("main") {
+		for _, b := range caller.Blocks {
+			for _, ins := range b.Instrs {
+				for _, op := range ins.Operands(nil) {
+					if op != nil && *op == ssa.Value(fn) {
+						c, ok := ins.(*ssa.Call)
+						if !ok || c.Call.StaticCallee() != fn {
+							return nil // used as a value
+						}
+					}
+				}
+				if c, ok := ins.(*ssa.Call); ok && c.Call.StaticCallee() == fn && idx >= 0 && idx < len(c.Call.Args) {
+					arg = c.Call.Args[idx]
+					n++
+				}
+			}
+		}
+	}
+	if n != 1 {
+		return nil
+	}
+	return arg
+}
+
+// boundMethodOf: bf is the wrapper go/ssa makes for a method value x.name of package pkg.
+func boundMethodOf(bf *ssa.Function, name string, pkg *types.Package) bool {
+	if !strings.HasSuffix(bf.Name(), "$bound") {
+		return false
+	}
+	for _, b := range bf.Blocks {
+		for _, ins := range b.Instrs {
+			if c, ok := ins.(*ssa.Call); ok {
+				if callee := c.Call.StaticCallee(); callee != nil && callee.Name() == name && pkgOf(callee) == pkg {
+					return true
+				}
+			}
+		}
+	}
+	return false
 }
